@@ -22,6 +22,15 @@
 (*               whose k-th entry is the tuple <<a[k], b[k]>>; inputs of   *)
 (*               rank >= 2 are plain coordinates of their own (a pandas    *)
 (*               MultiIndex is one-dimensional).                           *)
+(*  SOURCES      an axis of one output may be fed by SEVERAL sources: root  *)
+(*               inputs listed directly in the MapSpec and mapped arrays    *)
+(*               that carry root inputs from further up (trace_dependencies *)
+(*               walks them recursively).  What labels the axis is the      *)
+(*               UNION over all sources; the order in which a MapSpec lists *)
+(*               its inputs carries no meaning (LawSources, LawSourceOrder: *)
+(*               "c[i], x[i] -> y[i]" labels y exactly like                 *)
+(*               "x[i], c[i] -> y[i]", nothing collected from one source is *)
+(*               lost when the next one is traced).                         *)
 (*  LAW          selecting the entry of a coordinate that holds value v of *)
 (*               input x yields, in every variable that x labels, only     *)
 (*               elements whose term contains v at parameter x (LawSelect) *)
@@ -98,6 +107,18 @@ Supported(d, inp) == /\ AxesConsistent(d) /\ LeavesAreArrays(d) /\ Unambiguous(d
                      /\ ValidMapRequest(d, inp)
                      /\ LeafArrays(d) \ AllOutputs(d) \subseteq PKeys(inp)
 
+(* What one source (an input spec sp of the MapSpec of o's function) contributes to axis a of o: nothing when it *)
+(* does not carry a, itself when it is a leaf, and EVERYTHING that feeds it along a when it is a mapped output.    *)
+Contribution(d, sp, a) == IF a \notin SeqToSet(sp.axes) THEN {}
+                          ELSE IF IsMappedOutput(d, sp.name) THEN Feeds(d, sp.name, a) ELSE {sp.name}
+(* Feeds is the union over the sources, i.e. every source's contribution is kept whichever sources were traced    *)
+(* before or after it, and nothing else is added (trace_dependencies: `dependencies[axis].update(...)` / `.add`)  *)
+LawSources(d) == \A o \in {n \in AllOutputs(d) : IsMappedOutput(d, n)} :
+    LET ins == d.funcs[FuncOf(d, o)].ms.ins IN
+    \A a \in SeqToSet(Dims(d, o)) :
+        /\ \A k \in DOMAIN ins : Contribution(d, ins[k], a) \subseteq Feeds(d, o, a)
+        /\ \A x \in Feeds(d, o, a) : \E k \in DOMAIN ins : x \in Contribution(d, ins[k], a)
+
 ---------------------------------------------------------------------------
 (* The static analysis of a description, computed once: everything below is stated on it.                        *)
 Analysis(d) ==
@@ -109,6 +130,13 @@ Analysis(d) ==
          dims    |-> [o \in outs |-> Dims(d, o)],
          params  |-> [o \in outs |-> d.funcs[FuncOf(d, o)].params],
          carried |-> {p \in mapped \X leaves : Carried(d, p[1], p[2])}]  \* <<output, input-like array>>
+
+(* The order of the inputs of a MapSpec carries no meaning: listing them in another order changes neither the     *)
+(* analysis (hence no variable, coordinate or acceptable coordinate set below) nor the denotation.                 *)
+Orders(n)          == {p \in [1..n -> 1..n] : \A k1, k2 \in 1..n : k1 # k2 => p[k1] # p[k2]}
+Reordered(d, i, p) == [d EXCEPT !.funcs[i].ms.ins = [k \in DOMAIN @ |-> @[p[k]]]]
+Reorderings(d)     == UNION {{Reordered(d, i, p) : p \in Orders(Len(d.funcs[i].ms.ins))} : i \in SpecFuncs(d)}   \* one function at a time
+LawSourceOrder(d, inp, A, den) == \A d2 \in Reorderings(d) : Analysis(d2) = A /\ MapDenote(d2, inp) = den
 
 ---------------------------------------------------------------------------
 (* 3. The dataset of the selected outputs S (A = Analysis(d), li = load_intermediate).                           *)
